@@ -242,6 +242,89 @@ def shrink_doc(drv, doc, cfg, workdir):
     return cur, det
 
 
+# ---- corpus: small hand-made flows (shapes that past failures needed), run first, all eight configurations
+
+
+def corpus_docs():
+    n = [0]
+
+    def u():
+        n[0] += 1
+        return "00000000-0000-4000-8000-%012d" % n[0]
+
+    def msg(text):
+        return {"uuid": u(), "type": "send_msg", "text": text, "attachments": [], "quick_replies": []}
+
+    def basic(uid, actions, dest):
+        return {"uuid": uid, "actions": actions, "exits": [{"uuid": u(), "destination_uuid": dest}]}
+
+    def wait(uid, tests, default_dest, filed_under_default=None):
+        cats, exits, cases = [], [], []
+        for k, (ty, arg, dest) in enumerate(tests):
+            e = {"uuid": u(), "destination_uuid": dest}
+            c = {"uuid": u(), "name": f"Cat {k}", "exit_uuid": e["uuid"]}
+            cats.append(c); exits.append(e)
+            cases.append({"uuid": u(), "type": ty, "arguments": [arg], "category_uuid": c["uuid"]})
+        de = {"uuid": u(), "destination_uuid": default_dest}
+        dc = {"uuid": u(), "name": "Other", "exit_uuid": de["uuid"]}
+        cats.append(dc); exits.append(de)
+        if filed_under_default:
+            cases.append({"uuid": u(), "type": filed_under_default[0], "arguments": [filed_under_default[1]], "category_uuid": dc["uuid"]})
+        return {"uuid": uid, "actions": [], "exits": exits,
+                "router": {"type": "switch", "operand": "@input.text", "cases": cases, "categories": cats, "default_category_uuid": dc["uuid"],
+                           "wait": {"type": "msg"}, "result_name": "answer"}}
+
+    def doc(nodes, groups=()):
+        flow = {"uuid": u(), "name": "corpus flow", "language": "eng", "type": "messaging", "spec_version": "13.1.0", "revision": 0,
+                "expire_after_minutes": 10080, "localization": {}, "nodes": nodes, "_ui": {"nodes": {}}}
+        return {"campaigns": [], "fields": [], "flows": [flow], "groups": [{"name": g, "uuid": gu} for g, gu in groups],
+                "site": "https://rapidpro.idems.international", "triggers": [], "version": "13"}
+
+    docs = []
+    # (1) a diamond: a router branches into a node with several actions and into a single-action node with the same
+    # readable name; both join into a common successor; plus a cycle back to the start (both branch orders)
+    for order in (0, 1):
+        r0, m, nn, j, s0 = u(), u(), u(), u(), u()
+        multi = basic(m, [msg("Thank you for your feedback, one"), msg("second text")], j)
+        single = basic(nn, [msg("Thank you for your feedback, two")], j)
+        tests = [("has_any_word", "long", m), ("has_any_word", "short", nn)]
+        if order:
+            tests = [("has_any_word", "short", nn), ("has_any_word", "long", m)]
+        docs.append((f"diamond with a multi-action node and an equally named node (order {order})", doc([
+            basic(s0, [msg("start here")], r0),
+            wait(r0, tests, j),
+            multi if not order else single,
+            single if not order else multi,
+            basic(j, [msg("Thank you for your feedback, joined"), msg("and more")], None)])))
+    # (2) a rule filed under the router's default category
+    a, b, c = u(), u(), u()
+    docs.append(("rule filed under the default category", doc([
+        basic(a, [msg("hello")], b),
+        wait(b, [("has_any_word", "yes", c)], c, filed_under_default=("has_phrase", "skip later")),
+        basic(c, [msg("bye")], None)])))
+    # (3) group names with the cell separators
+    a, b = u(), u()
+    g1, g2 = u(), u()
+    docs.append(("group names with separators", doc([
+        basic(a, [{"uuid": u(), "type": "add_contact_groups", "groups": [{"name": "Parents; Teachers", "uuid": g1}]}], b),
+        basic(b, [{"uuid": u(), "type": "remove_contact_groups", "groups": [{"name": "Staff|Volunteers", "uuid": g2}]}], None)],
+        groups=[("Parents; Teachers", g1), ("Staff|Volunteers", g2)])))
+    return docs
+
+
+def corpus_stream(drv, ck, workdir):
+    for name, d in corpus_docs():
+        if not expressible(d):
+            raise core.Infra(f"corpus flow {name!r} is outside expressible()")
+        ck.case("corpus " + name, nontrivial=True)
+        ck.count("corpus_flows")
+        for fmt, strip, numbered in CONFIGS:
+            fail = check_one(drv, d, fmt, strip, numbered, workdir)
+            if fail:
+                ck.violation(f"corpus flow ({name}): {fail['what']}", {"flow": d, "config": [fmt, strip, numbered], "detail": fail})
+                break
+
+
 # ---- known-finding streams (deterministic)
 
 
@@ -403,6 +486,7 @@ def run(ck: core.Check):
     workdir = tempfile.mkdtemp(prefix="c04_")
     try:
         drv = core.Driver()
+        corpus_stream(drv, ck, workdir)
         known_streams(drv, ck, workdir)
         run_action_codec(ck, quick)
         n_total = 1920 if quick else 9600
